@@ -54,6 +54,15 @@ def gen_enum(rng, prefixes):
         if not ident or ident == '_':
             ident = 'FOO_X%d' % i
         idents.append(ident)
+    if rng.random() < 0.12:
+        # one member whose last word another member extends and a third continues with a further word
+        # (FOO_STYLE_BOLD, FOO_STYLE_BOLDER, FOO_STYLE_BOLD_ITALIC): what all share ends before that word
+        base = [nsword] + [rng.choice(WORDS) for _ in range(rng.choice([0, 1]))]
+        w = rng.choice(['BOLD', 'TEX2D', 'A', 'MODE'])
+        idents = ['_'.join(base + [w]), '_'.join(base + [w + rng.choice(['ER', 'X', '2', 'MS'])]), '_'.join(base + [w, rng.choice(['ITALIC', 'ARRAY', 'B'])])]
+        if rng.random() < 0.4:
+            idents.append('_'.join(base + [rng.choice(['OTHER', 'Z9'])]))
+        rng.shuffle(idents)
     members = [(i, rng.choice(VALUES) if rng.random() < 0.3 else rng.randint(-5, 40), rng.random() < 0.1)
                for i in idents]
     return members, rng.random() < 0.3
@@ -281,7 +290,16 @@ def main(tier, seed):
                 'Definition ecases : list ecase := [%s].' % ';\n'.join(eitems[s * per:(s + 1) * per]),
                 'Definition kcases : list (N * str * Z * Z) := [%s].' % ';\n'.join(kitems[s * per:(s + 1) * per]),
                 'Definition e_tie := Eval vm_compute in map e_id (filter e_tie_bad ecases).', 'Print e_tie.',
-                'Definition e_spec := Eval vm_compute in map e_id (filter e_spec_bad ecases).', 'Print e_spec.',
+                '(* the property also speaks when members are word-prefixes of one another, as long as what ALL share is a proper',
+                '   prefix of every member (so that no name comes out empty) *)',
+                'Definition hyp2 (idents : list str) : bool := forallb words_ok idents &&',
+                '  (let ws := map words idents in let sh := lcp_all ws in forallb (fun w => Nat.ltb (length sh) (length w)) ws).',
+                'Definition e_spec_bad2 (c : ecase) : bool :=',
+                '  let all := map m_ident c.(e_members) in let pub := filter (fun m => negb m.(m_private)) c.(e_members) in',
+                '  if negb (hyp2 all) then false else match spec_names c.(e_prefixes) c.(e_unpref) all (map m_ident pub), c.(e_obs) with',
+                '  | Some names, Some obs => negb (mem_eqb (combine (combine names (map m_value pub)) (map m_ident pub)) obs)',
+                '  | Some _, None => true | None, _ => false end.',
+                'Definition e_spec := Eval vm_compute in map e_id (filter (fun c => e_spec_bad c || e_spec_bad2 c) ecases).', 'Print e_spec.',
                 'Definition e_silent := Eval vm_compute in N.of_nat (length (filter e_spec_silent ecases)).',
                 'Print e_silent.',
                 'Definition k_tie := Eval vm_compute in map (fun c => fst (fst (fst c))) (filter k_tie_bad kcases).',
